@@ -6,7 +6,7 @@ from seed_table import rows
 R = rows()
 final = json.load(open('/verif/seeded/FINAL_RERUN.json'))
 metas = {os.path.basename(d.rstrip('/')): json.load(open(d + 'meta.json')) for d in sorted(glob.glob('/verif/seeded/*/')) if os.path.exists(d + 'meta.json')}
-def rnd(ID): return 1 if len(ID) == 3 else {'b': 2, 'c': 3, 'd': 3, 'e': 4, 'f': 4, 'g': 5, 'h': 5, 'i': 6, 'j': 6, 'k': 7, 'l': 7, 'm': 8}[ID[3]]
+def rnd(ID): return 1 if len(ID) == 3 else {'b': 2, 'c': 3, 'd': 3, 'e': 4, 'f': 4, 'g': 5, 'h': 5, 'i': 6, 'j': 6, 'k': 7, 'l': 7, 'm': 8, 'n': 8}[ID[3]]
 per_round = {}
 for ID, m in metas.items():
     r = rnd(ID)
@@ -51,7 +51,12 @@ attempt — the expected weak spot of bounded exhaustive checking, see §5.  An 
 the 8 properties with the fewest seeds: C02 C04 C06 C08 C10 C12 C14 C18; ids `…m`) repeated the plain brief and advised
 aiming at the region an obvious harness is least likely to exercise (rare box types, rarely used entry points, unusual
 combinations, large values, second-and-later calls, error paths); its first-attempt column was measured with the
-harness as committed at 3057367, before any extension.  Each change was **re-confirmed by `bin/try_seeded.sh`** in a fresh scratch worktree (demo
+harness as committed at 3057367, before any extension.  A second batch of round 8 (one change for each of C01 C03 C05 C09
+C11 C13 C15 C17; ids `…n`) repeated the round-7 brief (aim at what exhaustive small cases with boundary values MISS: a
+particular length, a large-but-not-boundary value, a specific combination, a rarely used entry point): 4 of 8 at the first
+attempt (C03n, C05n, C13n, C17n), 3 after general extensions (C01n, C09n, C11n), and **one valid change that no check
+catches, C15n** (a lookup memo keyed by chunk offset alone: it needs two chunks of one track stored at the same file offset
+and a previous lookup 8 samples deep — no C15 family has aliased chunk offsets; see its entry below and §5).  Each change was **re-confirmed by `bin/try_seeded.sh`** in a fresh scratch worktree (demo
 passes without the patch, fails with it; the existing suite passes with it: 65 = 59 + 4 + 2 tests), stored as
 `seeded/<id>/{{patch.diff, demo.rs, notes.md, meta.json}}`, applied to /repo (`git apply`), run against the
 quick tier of the relevant checks, and undone (`git checkout -- .`).  None is committed in /repo.  (Round 1
@@ -64,8 +69,8 @@ kept as `patch.orig.diff`.)
 
 **{caught_final} of {final['total']} are caught by the quick tier of the check of their own property**
 (several also by a neighbouring check); `seeded/FINAL_RERUN.json` is the record of the last complete re-run
-of all of them against the harness and the /repo tree as committed (`bin/rerun_seeded.sh`).  Those that are
-not ({', '.join(obsolete)}) are not (or no longer) valid defects with respect to any property (stopped being reachable or applicable
+of all of them against the harness and the /repo tree as committed (`bin/rerun_seeded.sh`).  Of those that are
+not, C15n is a valid change that is missed (above); the others ({', '.join(obsolete)}) are not (or no longer) valid defects with respect to any property (stopped being reachable or applicable
 after a repair of the pinned tree, or changes a value that is not representable): see their entries below.  First-attempt detection per round
 (by the check of their own property, before any strengthening): ''' + ', '.join(f"round {r}: {v[1]} of {v[0]}" for r, v in sorted(per_round.items())) + f''' — {first} of {total} in all.  Rounds 3 to 8 were briefed to
 produce exactly what the machinery of the earlier rounds would plausibly miss, so their lower rate is the
